@@ -423,6 +423,48 @@ int main(int argc, char** argv)
                }
                else if(t[k] == "CLB")
                   s.clearBasis();
+               else if(t[k] == "OPTQ")
+               {
+                  // an unreported solve (of a temporarily modified LP)
+                  if(!loaded)
+                  {
+                     load(s, L);
+                     loaded = true;
+                  }
+
+                  s.optimize();
+               }
+               else if(t[k].compare(0, 4, "CHB:") == 0)
+               {
+                  // CHB:<j>:<lo>:<up>  changeBoundsReal (the history brings the LP back to the case LP before the next reported solve)
+                  if(!loaded)
+                  {
+                     load(s, L);
+                     loaded = true;
+                  }
+
+                  std::vector<std::string> f;
+                  {
+                     std::string cur;
+
+                     for(char ch : t[k])
+                     {
+                        if(ch == ':')
+                        {
+                           f.push_back(cur);
+                           cur.clear();
+                        }
+                        else
+                           cur += ch;
+                     }
+
+                     f.push_back(cur);
+                  }
+                  int j = f.size() > 1 ? atoi(f[1].c_str()) : -1;
+
+                  if(f.size() == 4 && j >= 0 && j < s.numCols())
+                     s.changeBoundsReal(j, num(f[2]), num(f[3]));
+               }
                else
                   ok = setParam(s, t[k]) && ok;
             }
